@@ -1,9 +1,11 @@
 """C07 IO chains: chunking independence, failure and bound propagation."""
 import collections
 import itertools
+import os
 import random
 
 import runner
+import vlib
 from props.c08 import py_enc, py_dec, hx, unhx
 
 PID = "C07"
@@ -222,6 +224,9 @@ class Oracle:
                     return ("chunking-verdict:" + shape.split("(")[0], "verdict depends on the chunking: %s vs %s" % (pcase.split("\t")[2], chunks))
                 if verdict and "plexany" not in shape and pc != o[2:]:
                     return ("chunking-content:" + shape.split("(")[0], "delivered bytes depend on the chunking: %s vs %s" % (pcase.split("\t")[2], chunks))
+        v = branch_oracle(case, out)
+        if v:
+            return v
         r = ref_eval(shape, data)
         if r is not None:
             rv, rc = r
@@ -232,6 +237,62 @@ class Oracle:
         return None
 
 
+def split_top(shape):
+    """plexany(a,b(c),d) -> ('plexany', ['a','b(c)','d']); None for other shapes"""
+    for kind in ("plexany", "plexall"):
+        if shape.startswith(kind + "(") and shape.endswith(")"):
+            body = shape[len(kind) + 1:-1]
+            parts, depth, cur = [], 0, ""
+            for ch in body:
+                if ch == "," and depth == 0:
+                    parts.append(cur)
+                    cur = ""
+                    continue
+                depth += ch == "("
+                depth -= ch == ")"
+                cur += ch
+            if cur:
+                parts.append(cur)
+            return kind, parts
+    return None
+
+
+def nsinks(shape):
+    import re
+    return len(re.findall(r"malloc|buffer:\d+|file|faulty:", shape))
+
+
+ALONE = {}      # (branch shape, chunks, data hex) -> result line of the branch run on its own
+
+
+def branch_oracle(case, out):
+    """every branch of a multiplexer that succeeds on its own must have delivered, inside the multiplexer, exactly
+    what it delivers on its own (a live branch is fed everything and is finished)"""
+    f = case.split("\t")
+    st = split_top(f[1])
+    if st is None or "faulty" in f[1] or out.startswith("CRASH"):
+        return None
+    kind, parts = st
+    o = out.split(" ")
+    if o[1] != "T":
+        return None
+    sinks = o[2:]
+    pos = 0
+    for b in parts:
+        n = nsinks(b)
+        mine = sinks[pos:pos + n]
+        pos += n
+        a = ALONE.get((b, f[2], f[3]))
+        if a is None or a.startswith("CRASH"):
+            continue
+        ao = a.split(" ")
+        nchunks = 0 if f[2] == "-" else len(f[2].split(","))
+        if ao[1] == "T" and int(ao[0]) == nchunks and ao[2:] != mine:
+            return ("plex-branch-differs:%s:%s" % (kind, b.split("(")[0]),
+                    "branch %s of %s delivered %s inside the multiplexer but %s on its own (same feeds)" % (b, f[1], " ".join(mine)[:80], " ".join(ao[2:])[:80]))
+    return None
+
+
 def nontrivial(case, out):
     f = case.split("\t")
     return f[3] != "-" and f[2] != "-"
@@ -239,6 +300,20 @@ def nontrivial(case, out):
 
 def correspond(ctx):
     cases, dist = gen(ctx["tier"], ctx["seed"])
+    # every branch of a fault-free top-level multiplexer also runs on its own with the same feeds (implementation only)
+    alone = []
+    for c in cases:
+        f = c.split("\t")
+        stp = split_top(f[1])
+        if stp and "faulty" not in f[1]:
+            for b in stp[1]:
+                if (b, f[2], f[3]) not in ALONE:
+                    ALONE[(b, f[2], f[3])] = None
+                    alone.append((b, f[2], f[3]))
+    outs = vlib.run_cases(os.path.join(ctx["bdir"], "h"), ["chain\t%s\t%s\t%s" % a for a in alone])
+    for a, o in zip(alone, outs):
+        ALONE[a] = o
+    dist["multiplexer branches also run on their own"] = len(alone)
     st = runner.standard(
         ctx, cases, Oracle(), nontrivial,
         rule="chain shapes from the public constructors (+ a harness fault-injecting sink) x data x compositions of the length into feed sizes; non-trivial = non-empty data and at least one feed; distinct = distinct case lines",
